@@ -8,7 +8,7 @@ use regex::Regex;
 
 use fnv::FnvHasher;
 
-use chrono::{Local, Datelike, Timelike, DurationRound, Duration, TimeZone, NaiveDate};
+use chrono::{Local, Datelike, Timelike, DurationRound, Duration, TimeZone, NaiveDate, Offset};
 
 use itertools::Itertools;
 
@@ -487,6 +487,12 @@ impl<'a, T: ColumnProvider> ExpressionExecutionEngine<'a, T> {
                                     "microseconds" => Ok(Duration::microseconds(1)),
                                     _ => { return Err(EvaluationError::InvalidTruncatePart); }
                                 };
+
+                                // East (west) of UTC the local time of a timestamp at the upper (lower) end of the range
+                                // lies outside the range: that is an error of the truncation, not a panic
+                                if timestamp.naive_utc().checked_add_offset(timestamp.offset().fix()).is_none() {
+                                    return Err(EvaluationError::FailedToTruncate);
+                                }
 
                                 match duration {
                                     Ok(duration) => {
